@@ -148,7 +148,8 @@ func (o *oracle) writable(op Op) (set, bool) {
 }
 
 // validate: InvalidArgument for an update mask that names an unknown field, or (when writable fields
-// are restricted) names a field twice or a field that is not writable; Internal for a reset mask
+// are restricted) names a field that is not writable (naming a writable field twice is accepted since
+// repo 4d3ae38); Internal for a reset mask
 // naming an unknown field.
 func (o *oracle) validate(op Op) string {
 	if um, ok := op.opt("um"); ok {
@@ -159,12 +160,10 @@ func (o *oracle) validate(op Op) string {
 			}
 		}
 		if w, restricted := o.writable(op); restricted {
-			seen := set{}
 			for _, l := range ls {
-				if seen[l] || !w[l] {
+				if !w[l] {
 					return "InvalidArgument"
 				}
-				seen[l] = true
 			}
 		}
 	}
@@ -228,7 +227,8 @@ func (o *oracle) write(op Op, old *rmsg) (rmsg, string) {
 	}
 	w, restricted := o.writable(op)
 	um, hasUM := op.opt("um")
-	noop := (restricted && len(w) == 0) || (hasUM && len(maskLetters(um)) == 0)
+	// an empty update mask changes nothing; with nothing writable only the reset mask applies (repo 70b9b73)
+	noop := hasUM && len(maskLetters(um)) == 0
 	if !noop {
 		m := toSet(um)
 		for _, f := range []string{"a", "s", "c"} {
